@@ -1,9 +1,41 @@
 import MlodaVerif.Model.OptGroup
-/-! The grouping dictionary: characterisation of `addTo`, the invariant of the two passes, and the abstract
-`same group ↔ same base key` theorem under the no-collision hypotheses. -/
+/-! The grouping dictionary.  `OptGroupEq` is the *equality-keyed* version of the algorithm (keys compared with `=`): a
+proof device — the real, `==`-keyed algorithm of `Model/OptGroup.lean` is shown to be its image under "replace every
+key by the representative of its `==`-class" (section `Quot` at the end).  This file: characterisation of `addTo`, the
+invariant of the two passes, `same group ↔ same base key`, then the transfer to the `==`-keyed model. -/
 
-namespace OptGroup
+namespace OptGroupEq
+open OptGroup (SameGroup)
 variable {α : Type} {K : Type} [DecidableEq K]
+
+def addTo (coll : List (K × List α)) (k : K) (x : α) : List (K × List α) :=
+  match coll with
+  | [] => [(k, [x])]
+  | (k', g) :: t => if k' = k then (k', g ++ [x]) :: t else (k', g) :: addTo t k x
+
+def pass1 (sim : α → K) (typed : List α) (coll : List (K × List α)) : List (K × List α) :=
+  typed.foldl (fun c f => addTo c (sim f) f) coll
+
+def findGroup (base : α → K) (pick : List α → Option α) (coll : List (K × List α)) (b : K) : Option K :=
+  match coll with
+  | [] => none
+  | (k, g) :: t =>
+    match pick g with
+    | some a => if base a = b then some k else findGroup base pick t b
+    | none => findGroup base pick t b
+
+def place (base : α → K) (pick : List α → Option α) (coll : List (K × List α)) (f : α) : List (K × List α) :=
+  match findGroup base pick coll (base f) with
+  | some k => addTo coll k f
+  | none => addTo coll (base f) f
+
+def pass2 (base : α → K) (pick : List α → Option α) (untyped : List α) (coll : List (K × List α)) :
+    List (K × List α) :=
+  untyped.foldl (place base pick) coll
+
+def groupBy (isTyped : α → Bool) (sim base : α → K) (pick : List α → Option α) (fs : List α) :
+    List (K × List α) :=
+  pass2 base pick (fs.filter (fun f => !isTyped f)) (pass1 sim (fs.filter isTyped) [])
 
 def keysC (coll : List (K × List α)) : List K := coll.map (·.1)
 def members (coll : List (K × List α)) : List α := coll.flatMap (·.2)
@@ -523,4 +555,305 @@ theorem groupBy_typed_same_key (fs : List α) (f g : α) (hf : f ∈ fs) (hg : g
   exact ⟨_, he1, hf1, hg2⟩
 
 end passes
-end OptGroup
+end OptGroupEq
+
+/-! ## transfer to the `==`-keyed dictionary of the code -/
+
+namespace OptGroupQ
+open OptGroup
+variable {α : Type} {K : Type} [DecidableEq K] (keq : K → K → Bool)
+
+/-- the key comparison is an equivalence relation on the keys that occur -/
+structure EquivOn (S : List K) : Prop where
+  refl : ∀ a ∈ S, keq a a = true
+  symm : ∀ a ∈ S, ∀ b ∈ S, keq a b = true → keq b a = true
+  trans : ∀ a ∈ S, ∀ b ∈ S, ∀ c ∈ S, keq a b = true → keq b c = true → keq a c = true
+
+/-- representative of the `==`-class of `k`: the first occurring key that is `==` to it -/
+def rep (S : List K) (k : K) : K := (S.find? (fun s => keq s k)).getD k
+
+variable {keq}
+
+theorem find_congr {β : Type} {p q : β → Bool} : ∀ (l : List β), (∀ s ∈ l, p s = q s) → l.find? p = l.find? q := by
+  intro l
+  induction l with
+  | nil => intro _; rfl
+  | cons x xs ih =>
+    intro h
+    simp only [List.find?_cons, h x (by simp)]
+    rw [ih (fun s hs => h s (by simp [hs]))]
+
+theorem rep_eq_iff {S : List K} (h : EquivOn keq S) {a b : K} (ha : a ∈ S) (hb : b ∈ S) :
+    rep keq S a = rep keq S b ↔ keq a b = true := by
+  unfold rep
+  constructor
+  · intro e
+    cases h1 : S.find? (fun s => keq s a) with
+    | none =>
+      have := List.find?_eq_none.mp h1 a ha
+      simp [h.refl a ha] at this
+    | some s =>
+      cases h2 : S.find? (fun s => keq s b) with
+      | none =>
+        have := List.find?_eq_none.mp h2 b hb
+        simp [h.refl b hb] at this
+      | some t =>
+        rw [h1, h2] at e
+        simp only [Option.getD_some] at e
+        subst e
+        have hs := List.mem_of_find?_eq_some h1
+        have k1 : keq s a = true := by simpa using List.find?_some h1
+        have k2 : keq s b = true := by simpa using List.find?_some h2
+        exact h.trans a ha s hs b hb (h.symm s hs a ha k1) k2
+  · intro e
+    have hcongr : S.find? (fun s => keq s a) = S.find? (fun s => keq s b) := by
+      apply find_congr
+      intro s hs
+      apply Bool.eq_iff_iff.mpr
+      constructor
+      · intro k; exact h.trans s hs a ha b hb k e
+      · intro k; exact h.trans s hs b hb a ha k (h.symm a ha b hb e)
+    rw [hcongr]
+    cases h2 : S.find? (fun s => keq s b) with
+    | none =>
+      have := List.find?_eq_none.mp h2 b hb
+      simp [h.refl b hb] at this
+    | some t => rfl
+
+def mapKeys (S : List K) (coll : List (K × List α)) : List (K × List α) :=
+  coll.map (fun e => (rep keq S e.1, e.2))
+
+theorem addTo_sim {S : List K} (h : EquivOn keq S) (coll : List (K × List α)) (k : K) (x : α)
+    (hc : ∀ e ∈ coll, e.1 ∈ S) (hk : k ∈ S) :
+    mapKeys (keq := keq) S (addTo keq coll k x) = OptGroupEq.addTo (mapKeys (keq := keq) S coll) (rep keq S k) x := by
+  induction coll with
+  | nil => rfl
+  | cons e t ih =>
+    obtain ⟨k', g⟩ := e
+    have hk' : k' ∈ S := hc (k', g) (by simp)
+    have ht := ih (fun e he => hc e (by simp [he]))
+    by_cases hq : keq k' k = true
+    · have hr : rep keq S k' = rep keq S k := (rep_eq_iff h hk' hk).mpr hq
+      simp only [addTo, hq, if_true, mapKeys, List.map_cons, OptGroupEq.addTo, hr]
+    · have hr : ¬ rep keq S k' = rep keq S k := fun e => hq ((rep_eq_iff h hk' hk).mp e)
+      simp only [mapKeys] at ht
+      simp only [addTo, hq, mapKeys, List.map_cons, OptGroupEq.addTo, hr, if_false, ht, Bool.false_eq_true]
+
+theorem findGroup_sim {S : List K} (h : EquivOn keq S) (base : α → K) (pick : List α → Option α)
+    (coll : List (K × List α)) (b : K) (hb : b ∈ S)
+    (hp : ∀ e ∈ coll, ∀ a, pick e.2 = some a → base a ∈ S) :
+    (findGroup keq base pick coll b).map (rep keq S) =
+      OptGroupEq.findGroup (fun x => rep keq S (base x)) pick (mapKeys (keq := keq) S coll) (rep keq S b) := by
+  induction coll with
+  | nil => rfl
+  | cons e t ih =>
+    obtain ⟨k', g⟩ := e
+    have ht := ih (fun e he => hp e (by simp [he]))
+    simp only [findGroup, mapKeys, List.map_cons, OptGroupEq.findGroup]
+    cases hpk : pick g with
+    | none => simp only; exact ht
+    | some a =>
+      have ha : base a ∈ S := hp (k', g) (by simp) a hpk
+      simp only
+      by_cases hq : keq (base a) b = true
+      · have hr : rep keq S (base a) = rep keq S b := (rep_eq_iff h ha hb).mpr hq
+        simp [hq, hr]
+      · have hr : ¬ rep keq S (base a) = rep keq S b := fun e => hq ((rep_eq_iff h ha hb).mp e)
+        simp only [hq, hr, if_false, Bool.false_eq_true]
+        exact ht
+
+theorem findGroup_key_mem (base : α → K) (pick : List α → Option α) (coll : List (K × List α)) (b k : K)
+    (h : findGroup keq base pick coll b = some k) : ∃ e ∈ coll, e.1 = k := by
+  induction coll with
+  | nil => simp [findGroup] at h
+  | cons e t ih =>
+    obtain ⟨k', g⟩ := e
+    unfold findGroup at h
+    split at h
+    · split at h
+      · cases h; exact ⟨(k, g), by simp, rfl⟩
+      · obtain ⟨e, he, hk⟩ := ih h; exact ⟨e, by simp [he], hk⟩
+    · obtain ⟨e, he, hk⟩ := ih h; exact ⟨e, by simp [he], hk⟩
+
+/-- keys in `S`, members in `fs` -/
+def Good (S : List K) (fs : List α) (coll : List (K × List α)) : Prop :=
+  (∀ e ∈ coll, e.1 ∈ S) ∧ ∀ e ∈ coll, ∀ x ∈ e.2, x ∈ fs
+
+theorem good_addTo {S : List K} {fs : List α} {coll : List (K × List α)} {k : K} {x : α}
+    (hg : Good S fs coll) (hk : k ∈ S) (hx : x ∈ fs) : Good S fs (addTo keq coll k x) := by
+  induction coll with
+  | nil => exact ⟨by simp [addTo, hk], by simp [addTo, hx]⟩
+  | cons e t ih =>
+    obtain ⟨k', g⟩ := e
+    have ht := ih ⟨fun e he => hg.1 e (by simp [he]), fun e he => hg.2 e (by simp [he])⟩
+    unfold addTo
+    split
+    · refine ⟨?_, ?_⟩
+      · intro e he
+        rcases List.mem_cons.mp he with rfl | he
+        · exact hg.1 (k', g) (by simp)
+        · exact hg.1 e (by simp [he])
+      · intro e he y hy
+        rcases List.mem_cons.mp he with rfl | he
+        · rcases List.mem_append.mp hy with h | h
+          · exact hg.2 (k', g) (by simp) y h
+          · simp at h; subst h; exact hx
+        · exact hg.2 e (by simp [he]) y hy
+    · refine ⟨?_, ?_⟩
+      · intro e he
+        rcases List.mem_cons.mp he with rfl | he
+        · exact hg.1 (k', g) (by simp)
+        · exact ht.1 e he
+      · intro e he y hy
+        rcases List.mem_cons.mp he with rfl | he
+        · exact hg.2 (k', g) (by simp) y hy
+        · exact ht.2 e he y hy
+
+theorem place_sim {S : List K} {fs : List α} (h : EquivOn keq S) (base : α → K) (pick : List α → Option α)
+    (hbase : ∀ x ∈ fs, base x ∈ S) (hpm : ∀ g x, pick g = some x → x ∈ g)
+    (coll : List (K × List α)) (f : α) (hf : f ∈ fs) (hg : Good S fs coll) :
+    mapKeys (keq := keq) S (place keq base pick coll f) =
+      OptGroupEq.place (fun x => rep keq S (base x)) pick (mapKeys (keq := keq) S coll) f ∧
+    Good S fs (place keq base pick coll f) := by
+  have hp : ∀ e ∈ coll, ∀ a, pick e.2 = some a → base a ∈ S :=
+    fun e he a ha => hbase a (hg.2 e he a (hpm _ _ ha))
+  have hs := findGroup_sim h base pick coll (base f) (hbase f hf) hp
+  unfold place OptGroupEq.place
+  rw [← hs]
+  cases hfind : findGroup keq base pick coll (base f) with
+  | none =>
+    simp only [Option.map_none]
+    exact ⟨addTo_sim h coll (base f) f hg.1 (hbase f hf), good_addTo hg (hbase f hf) hf⟩
+  | some k =>
+    simp only [Option.map_some]
+    obtain ⟨e, he, hk⟩ := findGroup_key_mem base pick coll (base f) k hfind
+    have hkS : k ∈ S := hk ▸ hg.1 e he
+    exact ⟨addTo_sim h coll k f hg.1 hkS, good_addTo hg hkS hf⟩
+
+theorem groupBy_sim {S : List K} {fs : List α} (h : EquivOn keq S) (isTyped : α → Bool) (sim base : α → K)
+    (pick : List α → Option α) (hsim : ∀ x ∈ fs, sim x ∈ S) (hbase : ∀ x ∈ fs, base x ∈ S)
+    (hpm : ∀ g x, pick g = some x → x ∈ g) :
+    mapKeys (keq := keq) S (groupBy keq isTyped sim base pick fs) =
+      OptGroupEq.groupBy isTyped (fun x => rep keq S (sim x)) (fun x => rep keq S (base x)) pick fs := by
+  unfold groupBy OptGroupEq.groupBy
+  have h1 : ∀ (l : List α) (coll : List (K × List α)), (∀ f ∈ l, f ∈ fs) → Good S fs coll →
+      mapKeys (keq := keq) S (pass1 keq sim l coll) =
+        OptGroupEq.pass1 (fun x => rep keq S (sim x)) l (mapKeys (keq := keq) S coll) ∧
+      Good S fs (pass1 keq sim l coll) := by
+    intro l
+    induction l with
+    | nil => intro coll _ hg; exact ⟨rfl, hg⟩
+    | cons f t ih =>
+      intro coll hl hg
+      have hf := hl f (by simp)
+      have hgood := good_addTo (keq := keq) hg (hsim f hf) hf
+      obtain ⟨e1, e2⟩ := ih (addTo keq coll (sim f) f) (fun g hg' => hl g (by simp [hg'])) hgood
+      refine ⟨?_, e2⟩
+      simp only [pass1, List.foldl_cons, OptGroupEq.pass1] at e1 ⊢
+      rw [e1, addTo_sim h coll (sim f) f hg.1 (hsim f hf)]
+  have h2 : ∀ (l : List α) (coll : List (K × List α)), (∀ f ∈ l, f ∈ fs) → Good S fs coll →
+      mapKeys (keq := keq) S (pass2 keq base pick l coll) =
+        OptGroupEq.pass2 (fun x => rep keq S (base x)) pick l (mapKeys (keq := keq) S coll) := by
+    intro l
+    induction l with
+    | nil => intro coll _ _; rfl
+    | cons f t ih =>
+      intro coll hl hg
+      have hf := hl f (by simp)
+      obtain ⟨p1, p2⟩ := place_sim h base pick hbase hpm coll f hf hg
+      have := ih (place keq base pick coll f) (fun g hg' => hl g (by simp [hg'])) p2
+      simp only [pass2, List.foldl_cons, OptGroupEq.pass2] at this ⊢
+      rw [this, p1]
+  obtain ⟨e1, g1⟩ := h1 (fs.filter isTyped) [] (fun f hf => (List.mem_filter.mp hf).1) ⟨by simp, by simp⟩
+  rw [h2 _ _ (fun f hf => (List.mem_filter.mp hf).1) g1, e1]
+  rfl
+
+theorem sameGroup_mapKeys (S : List K) (coll : List (K × List α)) (f g : α) :
+    SameGroup (mapKeys (keq := keq) S coll) f g ↔ SameGroup coll f g := by
+  unfold SameGroup mapKeys
+  constructor
+  · rintro ⟨e, he, h1, h2⟩
+    obtain ⟨e0, he0, rfl⟩ := List.mem_map.mp he
+    exact ⟨e0, he0, h1, h2⟩
+  · rintro ⟨e, he, h1, h2⟩
+    exact ⟨_, List.mem_map.mpr ⟨e, he, rfl⟩, h1, h2⟩
+
+/-- the key functions are coherent: the similarity key of a typed feature is its base key plus the declared type -/
+structure KeyShape (isTyped : α → Bool) (sim base : α → K) (fs : List α) : Prop where
+  q1 : ∀ f ∈ fs, ∀ g ∈ fs, isTyped f = true → isTyped g = true → keq (sim f) (sim g) = true → keq (base f) (base g) = true
+  q2 : ∀ f ∈ fs, ∀ g ∈ fs, isTyped f = true → isTyped g = true → keq (base f) (base g) = true → keq (sim f) (sim g) = true
+  q3 : ∀ f ∈ fs, ∀ g ∈ fs, isTyped f = true → isTyped g = false → keq (sim f) (base g) = false
+
+/-- **same group ⟺ `==` base keys** for the `==`-keyed dictionary, any choice function, any iteration order -/
+theorem groupBy_same_iff {S : List K} {fs : List α} (h : EquivOn keq S) (isTyped : α → Bool) (sim base : α → K)
+    (pick : List α → Option α) (hsim : ∀ x ∈ fs, sim x ∈ S) (hbase : ∀ x ∈ fs, base x ∈ S)
+    (hpk : OptGroupEq.PickOk pick) (hshape : KeyShape (keq := keq) isTyped sim base fs) :
+    ∀ f ∈ fs, ∀ g ∈ fs, SameGroup (groupBy keq isTyped sim base pick fs) f g ↔ keq (base f) (base g) = true := by
+  intro f hf g hg
+  rw [← sameGroup_mapKeys (keq := keq) S, groupBy_sim h isTyped sim base pick hsim hbase hpk.mem]
+  have hnc : OptGroupEq.NoColl isTyped (fun x => rep keq S (sim x)) (fun x => rep keq S (base x)) fs := by
+    refine ⟨?_, ?_, ?_⟩
+    · intro a ha b hb ta tb e
+      exact (rep_eq_iff h (hbase a ha) (hbase b hb)).mpr
+        (hshape.q1 a ha b hb ta tb ((rep_eq_iff h (hsim a ha) (hsim b hb)).mp e))
+    · intro a ha b hb ta tb e
+      exact (rep_eq_iff h (hsim a ha) (hsim b hb)).mpr
+        (hshape.q2 a ha b hb ta tb ((rep_eq_iff h (hbase a ha) (hbase b hb)).mp e))
+    · intro a ha b hb ta tb e
+      have := (rep_eq_iff h (hsim a ha) (hbase b hb)).mp e
+      rw [hshape.q3 a ha b hb ta tb] at this; cases this
+  rw [OptGroupEq.groupBy_same_iff isTyped _ _ pick hnc hpk f hf g hg]
+  exact rep_eq_iff h (hbase f hf) (hbase g hg)
+
+omit [DecidableEq K] in
+/-- partition (no hypothesis): every feature is in exactly one group, once -/
+theorem members_addTo_perm (coll : List (K × List α)) (k : K) (x : α) :
+    (OptGroupEq.members (addTo keq coll k x)).Perm (x :: OptGroupEq.members coll) := by
+  induction coll with
+  | nil => simp [addTo, OptGroupEq.members]
+  | cons e t ih =>
+    obtain ⟨k', g⟩ := e
+    unfold addTo
+    split
+    · simp only [OptGroupEq.members, List.flatMap_cons]
+      rw [List.append_assoc]
+      exact (List.perm_middle (l₁ := g) (a := x) (l₂ := List.flatMap (·.2) t))
+    · simp only [OptGroupEq.members, List.flatMap_cons] at ih ⊢
+      exact ((List.Perm.append_left g ih).trans List.perm_middle)
+
+omit [DecidableEq K] in
+theorem groupBy_members_perm (isTyped : α → Bool) (sim base : α → K) (pick : List α → Option α) (fs : List α) :
+    (OptGroupEq.members (groupBy keq isTyped sim base pick fs)).Perm fs := by
+  unfold groupBy
+  have hplace : ∀ coll f, (OptGroupEq.members (place keq base pick coll f)).Perm (f :: OptGroupEq.members coll) := by
+    intro coll f; unfold place; split <;> exact members_addTo_perm _ _ _
+  have h2 : ∀ (l : List α) (coll : List (K × List α)),
+      (OptGroupEq.members (pass2 keq base pick l coll)).Perm (l ++ OptGroupEq.members coll) := by
+    intro l
+    induction l with
+    | nil => intro coll; simp [pass2]
+    | cons f t ih =>
+      intro coll
+      have e : pass2 keq base pick (f :: t) coll = pass2 keq base pick t (place keq base pick coll f) := rfl
+      rw [e]
+      refine (ih _).trans ?_
+      refine (List.Perm.append_left t (hplace coll f)).trans ?_
+      simp only [List.cons_append]; exact List.perm_middle
+  have h1 : ∀ (l : List α) (coll : List (K × List α)),
+      (OptGroupEq.members (pass1 keq sim l coll)).Perm (l ++ OptGroupEq.members coll) := by
+    intro l
+    induction l with
+    | nil => intro coll; simp [pass1]
+    | cons f t ih =>
+      intro coll
+      have e : pass1 keq sim (f :: t) coll = pass1 keq sim t (addTo keq coll (sim f) f) := rfl
+      rw [e]
+      refine (ih _).trans ?_
+      refine (List.Perm.append_left t (members_addTo_perm coll (sim f) f)).trans ?_
+      simp only [List.cons_append]; exact List.perm_middle
+  refine (h2 _ _).trans ?_
+  refine (List.Perm.append_left _ (h1 _ _)).trans ?_
+  simp only [OptGroupEq.members, List.flatMap_nil, List.append_nil]
+  exact (List.perm_append_comm).trans (List.filter_append_perm isTyped fs)
+
+end OptGroupQ
